@@ -427,6 +427,7 @@ func (comp) Run(h *core.History, scratch string) *core.Result {
 	}
 
 	for i, op := range h.Ops {
+		res.Scribble() // the key buffers handed to the previous call are reused by their caller
 		a := op.Parsed()
 		var toks []string
 		keysBefore := cacher.Keys()
@@ -441,13 +442,13 @@ func (comp) Run(h *core.History, scratch string) *core.Result {
 		case opPut:
 			k, v, sz := a[0].Bytes(), a[1].Bytes(), a[2].I64()
 			_, wasInDB := persisted(string(k))
-			flag := ad.Put(k, &blob{b: v}, int(sz))
+			flag := ad.Put(res.CallerKey(k), &blob{b: v}, int(sz))
 			toks = append(toks, core.Lbl(1, core.Bool(flag)))
 			putEffects("Put", i, k, v, sz, flag, wasInDB, memBefore, valBefore)
 		case opHasOrAdd:
 			k, v, sz := a[0].Bytes(), a[1].Bytes(), a[2].I64()
 			_, wasInDB := persisted(string(k))
-			has, added := ad.HasOrAdd(k, &blob{b: v}, int(sz))
+			has, added := ad.HasOrAdd(res.CallerKey(k), &blob{b: v}, int(sz))
 			toks = append(toks, core.Lbl(4, core.Bool(has)), core.Lbl(7, core.L(core.Bool(has), core.Bool(added))))
 			// "checks if the value exists": the first flag says whether the key was in one of the tiers the
 			// adapter consults (the memory tier; the persister while it is open)
